@@ -76,8 +76,12 @@ def _big_table(rng, tier):
         n = rng.choice([9, 9, 10] if tier == 'quick' else [9, 10, 11, 12])
         return n, n, [((1 << n) - 1) & ~(1 << i) for i in range(n)]
     if kind == 'random':
-        n, m = (rng.randint(18, 26), rng.randint(12, 16)) if tier == 'quick' else (rng.randint(25, 40), rng.randint(15, 25))
-        return n, m, [sum((rng.random() < 0.5) << j for j in range(m)) for _ in range(n)]
+        if tier == 'quick':
+            n, m = rng.choice([(rng.randint(18, 24), rng.randint(12, 15)), (rng.randint(24, 30), rng.randint(15, 17))])
+        else:
+            n, m = rng.randint(25, 40), rng.randint(15, 22)
+        dens = rng.choice([0.5, 0.55, 0.6])
+        return n, m, [sum((rng.random() < dens) << j for j in range(m)) for _ in range(n)]
     n = rng.choice([40, 80, 120] if tier == 'quick' else [80, 120, 200, 300])     # chain: deep, thin lattice (Lindig is cubic here)
     return n, n, [(1 << (i + 1)) - 1 for i in range(n)]
 
@@ -88,7 +92,7 @@ def generate(rng, seed, run, tier, focus='C11', xmode=False):
     if xmode:
         n_peers = 0
     twin = n_peers == 2 and rng.random() < 0.5
-    big = focus == 'C11' and rng.random() < (0.04 if tier == 'quick' else 0.08)
+    big = focus == 'C11' and rng.random() < (0.05 if tier == 'quick' else 0.1)
     cfg = {'focus': focus, 'n_nodes': n_peers + 1,
            'node_seeds': [rng.randrange(1, 2 ** 31) for _ in range(n_peers)],
            'aslr_off': twin or rng.random() < 0.3, 'twin': twin, 'big': big,
@@ -100,6 +104,7 @@ def generate(rng, seed, run, tier, focus='C11', xmode=False):
     if twin:
         cfg['node_seeds'] = [cfg['node_seeds'][0]] * 2
     labels, events = [], []
+    pending_big = []
     nodes = list(range(cfg['n_nodes']))
     slots = {}       # (node, slot) -> dict(li, n, m, nc, kind)
     files = {}       # target -> dict(form, li, ...)
@@ -127,6 +132,9 @@ def generate(rng, seed, run, tier, focus='C11', xmode=False):
             isbig = False
         s = rng.choice(slot_names)
         slots[(node, s)] = {'li': li, 'n': n, 'm': m, 'kind': 'ctx', 'big': isbig}
+        if isbig:
+            slots[(node, s)]['nc'] = len(FCA(n, m, rows).concepts())
+            pending_big.append((node, s))
         return ['ctx_new', node, s, li, rows]
 
     def target(form, natural):
@@ -169,6 +177,44 @@ def generate(rng, seed, run, tier, focus='C11', xmode=False):
         node = rng.choice(nodes)
         have = live(node)
         dst = rng.choice(slot_names)
+        if pending_big:
+            # a large lattice is expensive to build: use it at once (store it, reload it here or elsewhere)
+            nd, s = pending_big.pop()
+            info = slots.get((nd, s))
+            if info is not None:
+                other = rng.choice(nodes)
+                how = rng.choice(['dict', 'json', 'json', 'literal', 'pickle'])
+                if rng.random() < 0.5:
+                    events.append(['lat_force', nd, s])
+                if how == 'dict':
+                    raw = int(rng.random() < 0.5)
+                    events.append(['dict_rt', nd, s, 0, raw, rng.randrange(1, 10 ** 6) if raw else 0, int(rng.random() < 0.5), dst])
+                    slots[(nd, dst)] = dict(info, kind='ctx')
+                elif how == 'json':
+                    t = target('json', '.json')
+                    events.append(['json_w', nd, s, t, 'str', None, 1, 0, 'utf-8'])
+                    files[t] = dict(info, form='json')
+                    if rng.random() < 0.4:
+                        events.append(['permute', t, rng.randrange(1, 10 ** 6)])
+                        files[t]['permuted'] = True
+                    events.append(['json_r', other, t, 'str', 0, 0, int(files[t].get('permuted', False) or rng.random() < 0.3), dst])
+                    slots[(other, dst)] = dict(info, kind='ctx')
+                elif how == 'literal':
+                    t = target('literal', '.py')
+                    events.append(['lat_force', nd, s])
+                    events.append(['lit_w', nd, s, t, 'file'])
+                    files[t] = dict(info, form='literal')
+                    events.append(['lit_r', other, t, 'file', dst])
+                    slots[(other, dst)] = dict(info, kind='ctx')
+                else:
+                    what = rng.choice(['ctx', 'lat'])
+                    t = target('pickle', '.pkl')
+                    events.append(['pk_w', nd, s, what, t, rng.choice([2, 4, 5])])
+                    if what == 'ctx' or info.get('nc', 0) < 370:
+                        files[t] = dict(info, form='pk_' + what)
+                        events.append(['pk_r', other, t, dst])
+                        slots[(other, dst)] = dict(info, kind='lat' if what == 'lat' else 'ctx')
+            continue
         if kind == 'ctx_new' or not live():
             events.append(new_ctx(node))
             continue
@@ -239,7 +285,8 @@ def generate(rng, seed, run, tier, focus='C11', xmode=False):
         elif kind == 'json_w':
             t = target('json', '.json')
             events.append([kind, nd, s, t, rng.choice(['str', 'str', 'bytes', 'pathlike', 'fileobj']),
-                           rng.choice([None, None, 0, 2, 4]), int(rng.random() < 0.7), rng.choice([0, 0, 0, 1])])
+                           rng.choice([None, None, 0, 2, 4]), int(rng.random() < 0.7), rng.choice([0, 0, 0, 1]),
+                           rng.choice(['utf-8', 'utf-8', 'utf-16', 'latin-1', 'utf-32'])])
             files[t] = dict(info, form='json')
         elif kind == 'lit_w':
             t = target('literal', '.py')
@@ -249,7 +296,8 @@ def generate(rng, seed, run, tier, focus='C11', xmode=False):
             what = rng.choice(['ctx', 'lat'])
             t = target('pickle', '.pkl')
             events.append([kind, nd, s, what, t, rng.choice([0, 1, 2, 3, 4, 5])])
-            files[t] = dict(info, form='pk_' + what)
+            if what == 'ctx' or info.get('nc', 0) < 370:
+                files[t] = dict(info, form='pk_' + what)
         elif kind == 'txt_w':
             frmat = rng.choice(TEXT_FORMATS)
             t = target(frmat, SUFFIX[frmat])
@@ -290,6 +338,8 @@ def generate(rng, seed, run, tier, focus='C11', xmode=False):
                 for k in [k for k in slots if k[0] == other]:
                     del slots[k]
             t = w[3] if w[0] in ('json_w', 'lit_w') else w[4]
+            if t not in files:
+                continue
             f = files[t]
             if w[0] == 'json_w':
                 events.append(['json_r', other, t, rng.choice(['str', 'pathlike', 'fileobj']), 0, 0, int(rng.random() < 0.3), dst])
@@ -499,7 +549,7 @@ class Storage:
         self.expect_lattice(node, dst, new, with_lat)
         self.battery(node, dst, new, 'C11.reload_battery_eq_recomputed')
 
-    def ev_json_w(self, node, slot, target, pathkind, indent, sort_keys, ign):
+    def ev_json_w(self, node, slot, target, pathkind, indent, sort_keys, ign, enc='utf-8'):
         rec = self.rec
         info = self.slots.get((node, slot))
         if info is None or info['kind'] != 'ctx':
@@ -507,7 +557,7 @@ class Storage:
         p = self.path(target)
         before = os.path.getsize(p) if os.path.exists(p) else None
         r = self.send(node, {'op': 'tojson', 'slot': slot, 'path': p, 'pathkind': pathkind, 'indent': indent,
-                             'sort_keys': bool(sort_keys), 'ignore_lattice': bool(ign)})
+                             'sort_keys': bool(sort_keys), 'ignore_lattice': bool(ign), 'encoding': enc})
         rec.check('C11.tojson_succeeds', r['ok'], lambda: f'tojson({pathkind}) raised {r}')
         if not r['ok']:
             self.files.pop(target, None)
@@ -516,18 +566,21 @@ class Storage:
             info['has_lat'] = True
         objs, props = self.labels[info['li']]
         want = _jsonable(info['fca'].documented_dict(objs, props, with_lattice=not ign))
-        with open(p, encoding='utf-8') as f:
-            got = json.load(f)
+        try:
+            with open(p, encoding=enc) as f:
+                got = json.load(f)
+        except (UnicodeError, ValueError) as e:
+            got = f'not readable as {enc} JSON: {e!r}'
         rec.check('C11.json_eq_documented', got == want,
-                  lambda: f'JSON file content {str(got)[:500]} documented {str(want)[:500]}')
+                  lambda: f'JSON file ({enc}) content {str(got)[:500]} documented {str(want)[:500]}')
         if before is not None:
             rec.fault('path_overwrite')
             if before > os.path.getsize(p):
                 rec.probe('overwrite_longer_file')
-        self.files[target] = {'form': 'json', 'li': info['li'], 'fca': info['fca'], 'has_lat': not ign,
+        self.files[target] = {'form': 'json', 'li': info['li'], 'fca': info['fca'], 'has_lat': not ign, 'enc': enc,
                               'permuted': False, 'writer_node': node, 'writer_epoch': self.epoch.get(node, 0)}
         with open(p, 'rb') as fh:
-            rec.log('ok ' + core.sha(fh.read().decode('utf-8'))[:16])
+            rec.log('ok ' + core.sha(fh.read().decode(enc, errors='replace'))[:16])
 
     def ev_json_r(self, node, target, pathkind, ign, req, raw, dst):
         rec = self.rec
@@ -537,7 +590,8 @@ class Storage:
         raw = bool(raw) or f['permuted']
         self.writer_reader_fault(node, f)
         r = self.send(node, {'op': 'fromjson', 'dst': dst, 'path': self.path(target), 'pathkind': pathkind,
-                             'ignore_lattice': bool(ign), 'require_lattice': bool(req), 'raw': raw})
+                             'ignore_lattice': bool(ign), 'require_lattice': bool(req), 'raw': raw,
+                             'encoding': f.get('enc', 'utf-8')})
         must_fail = bool(req) and not f['has_lat']
         if must_fail:
             rec.fault('rejected_call')
@@ -616,10 +670,10 @@ class Storage:
         if f is None or f['form'] not in ('json', 'literal') or f['form'] == 'literal':
             return rec.log('noop')
         p = self.path(target)
-        with open(p, encoding='utf-8') as fh:
+        with open(p, encoding=f.get('enc', 'utf-8')) as fh:
             d = json.load(fh)
         d2 = _jsonable(storeutil.permute_dict(d, k))
-        with open(p, 'w', encoding='utf-8') as fh:
+        with open(p, 'w', encoding=f.get('enc', 'utf-8')) as fh:
             json.dump(d2, fh)
         f['permuted'] = True
         rec.fault('stored_order_permutation(raw)')
